@@ -183,6 +183,13 @@ abCheck(AbSyn absyn)
 		comsgError(absyn, ALDOR_E_ChkBadMacro);
 		break;
 
+	case AB_Fix:
+	case AB_Delay:
+		/* Parsed, but no later phase implements them. */
+		comsgError(absyn, ALDOR_E_ChkUnsupported,
+			   keyString(abInfo(abTag(absyn)).tokenTag));
+		break;
+
 	case AB_MLambda:
 		comsgError(absyn, ALDOR_E_ChkBadMLambda);
 		break;
